@@ -34,7 +34,7 @@ TRUSTED = ["scrypt/AES/sha256/NFC/UTF-8/EC oracles answered by hashlib, pycrypto
            "P2PKH address of a point computed by the harness from the Bitcoin definition (version byte 0x00)"]
 ASSUMPTIONS = ["AES-256-ECB decrypt(encrypt(b)) = b for 16-byte b", "|scrypt(.., dklen)| = dklen, |sha256 x| = 32",
                "secp256k1: smul a (smul b P) = smul (a*b mod n) P, n*G = 0 (Z-module laws)", "ser_c/deser inverse"]
-BUDGET = {"quick": 175, "thorough": 1500}
+BUDGET = {"quick": 175, "thorough": 1300}
 
 K1 = ecref.SECP256K1
 NORD = K1.n
